@@ -1,6 +1,54 @@
-"""C01 — see props/router_run.py"""
+"""C01 — dispatch to the one endpoint registered for the request.
+
+The router itself (registration + lookup, every order, symbolic version bounds and request) is decided in
+props/router_run.py.  On top of it, the request entry point server.rs::http_request_handle is executed (props/glue.py)
+on a versioned server: the version the policy resolves from the header is the version the request is routed at, so
+the handler that runs is exactly the endpoint whose method, path and range match (method, path, resolved version),
+and no handler runs when none matches.  Solver models are replayed on a real server (replay op versioned_server)."""
+import z3
+
+from mirsym.core import Opaque, zbool, znot, zor
+from mirsym.runner import Inconclusive
 from props import router_run
 
 
+def entry_point(chk):
+    from props import glue as G, httpmodel
+    from props.routerlib import Endpoint
+    ex = router_run.G['ex']
+    saved = ex.models
+    ex.models = G.load_models() + httpmodel.MODELS + ex.models
+    try:
+        g = G.Glue(chk, ex)
+        tables = [[Endpoint(0, 'GET', '/a', 'Until'), Endpoint(1, 'GET', '/a', 'From'), Endpoint(2, 'PUT', '/a', 'FromUntil')],
+                  [Endpoint(0, 'GET', '/a', 'FromUntil'), Endpoint(1, 'GET', '/a/b', 'All'), Endpoint(2, 'GET', '/a', 'FromUntil')]]
+        ok_resp = lambda ex: ex.ok(httpmodel.Response(200, httpmodel.HMap(), Opaque('body', 'out')))
+        seen = set()
+        def check(chk, ex, pc, r, ctx):
+            eps, tag = ctx['eps'], ctx['tag']
+            if r['calls']:
+                seen.add('handler')
+                hid = r['calls'][0][0]
+                e = next(x for x in eps if x.id == hid)
+                bad = z3.Or(znot(zbool(G.matched_endpoint(ctx, e))), z3.BoolVal(len(r['calls']) != 1))
+                m = chk.prove(f'{tag}/the-handler-is-the-endpoint-matching-method-path-and-resolved-version', pc, bad, extra=ctx['assume'])
+                what = f'handler {hid} ran for a request it does not match at the resolved version'
+            else:
+                seen.add('none')
+                m = chk.prove(f'{tag}/no-handler-only-if-nothing-matches', pc, zbool(zor(*[G.matched_endpoint(ctx, e) for e in eps])), extra=ctx['assume'])
+                what = 'a request matching a registered endpoint at the resolved version reached no handler'
+            if m is not None:
+                case, nat, same = G.native_agrees(chk, ex, m, ctx, r)
+                chk.counterexample(f'{what}: {case["requests"][0]} on {[(e["method"], e["path"], e["versions"]) for e in case["endpoints"]]} '
+                                   f'max {case["max"]} -> real server {nat}', case, same, role='entry-point')
+        for ti, table in enumerate(tables):
+            for mode in ('CancelOnDisconnect', 'Detached'):
+                seen.clear()
+                g.run(table, 'dynamic', mode, ok_resp, check, f'entry{ti}')
+                if seen != {'handler', 'none'}: raise Inconclusive(f'vacuity: entry point outcomes {seen} on table {ti}')
+    finally:
+        ex.models = saved
+
+
 def run(tier, replay_file=None):
-    return router_run.run('C01', tier, replay_file)
+    return router_run.run('C01', tier, replay_file, before_finish=entry_point)
